@@ -47,10 +47,14 @@ def one_run(i, seed, pristine):
         # attribution to listed findings: re-run under their corrective shims
         shim_list = known_shims()
         attributed = None
+        incomplete = False
         if shim_list:
             for fid, sh in shim_list:
                 r2 = SC.execute(ops, pristine, cache=True, shim_names=[sh])
-                if r2['status'] == 'ok' and not r2['violations']:
+                if r2['status'] != 'ok':
+                    incomplete = True       # (time-out of the re-run under load): never decide on it
+                    break
+                if not r2['violations']:
                     attributed = fid
                     break
             if attributed is None and len(shim_list) > 1:
@@ -59,6 +63,12 @@ def one_run(i, seed, pristine):
                     attributed = '+'.join(fid for fid, _ in shim_list)
             if attributed is None and r2['status'] == 'ok' and r2['violations']:
                 out['class_under_shims'] = r2['violations'][0]['class']
+        if incomplete:
+            out['status'] = 'discard'
+            out['reason'] = 'attribution-rerun-' + str(r2.get('reason'))[:40]
+            out['harness'] = bool(r2.get('harness'))
+            out.pop('class', None)
+            return out
         if attributed:
             out['known'] = attributed
             if len(ops) <= 12:
@@ -134,14 +144,11 @@ def run(batch, n_runs, pristine, wall_limit=None, start=0):
         res = SC.execute(ops, pristine, cache=False, shim_names=shim_names)
         ok = res['status'] == 'ok' and any(v['class'] == cls for v in res['violations'])
         if not ok:
-            # could not reproduce under the shims: fall back to the unminimised history without shims
+            # the minimised history lost the violation (ddmin ran out of budget on a flaky predicate): use the original one
             ops = r['ops']
-            shim_used = []
-            res = SC.execute(ops, pristine, cache=False)
-            cls = r['class']
+            res = SC.execute(ops, pristine, cache=False, shim_names=shim_names)
             ok = res['status'] == 'ok' and any(v['class'] == cls for v in res['violations'])
-        else:
-            shim_used = shim_names
+        shim_used = shim_names
         if not ok:
             batch.harness_errors.append('violation of run %d (%s) did not reproduce in a fresh child' % (r['run'], cls))
             continue
